@@ -7,6 +7,7 @@ I/O thread does.
 """
 from __future__ import annotations
 
+import functools
 import itertools
 
 from .. import common, refcodec as rc, simkernel as sk
@@ -230,9 +231,161 @@ def streams(tier):
     return out
 
 
+# ------------------------------------------------------------------ two connections' readers decode in the same instant
+def race_execute(kinds_a, kinds_b, prefix):
+    """Two bare connections each receive a stream in the same instant; their reader threads frame and decode concurrently.
+    Scheduling points: every call inside the codec and every line of the framing loop."""
+    from .. import codecrace, scheddfs
+    sk.install()
+    import diameter.node.peer as P
+    sk.set_line_points({sk.code_of(P.PeerConnection, "work_read_queue"): None})
+    sk.set_call_points(codecrace.codec_codes())
+    ch = scheddfs.Chooser(prefix)
+    w = sk.World(chooser=ch)
+    try:
+        conns, gots, frames_all = [], [], []
+        for kinds, base in ((kinds_a, 0x1000), (kinds_b, 0x5000)):
+            frames = [_frame(k, base + 16 * i) for i, k in enumerate(kinds)]
+            r, wr = sk.OsShim().pipe()
+            c = P.PeerConnection("10.0.0.2", 3868, P.PEER_RECV, wr)
+            c.state = P.PEER_READY
+            got = []
+            c.message_handler = functools.partial(lambda got, conn, m: got.append(m.as_bytes()), got)
+            conns.append(c)
+            gots.append(got)
+            frames_all.append(frames)
+        w.run()
+        for c, frames in zip(conns, frames_all):
+            c.add_in_bytes(b"".join(frames))
+        w.points_on = True
+        ch.window = True
+        w.run(max_steps=60_000)
+        ch.window = False
+        w.points_on = False
+        want = tuple(tuple(f for k, f in zip(kinds, frames) if k not in UNDEC and k not in MAL) for kinds, frames in zip((kinds_a, kinds_b), frames_all))
+        dead = tuple(repr(t.exc) for t in w.threads if t.exc is not None)
+        obs = (tuple(tuple(g) for g in gots) == want, tuple(len(g) for g in gots), tuple(len(x) for x in want), tuple(c.state == P.PEER_CLOSED for c in conns), dead)
+        return obs, ch
+    finally:
+        w.shutdown()
+        sk.set_call_points([])
+
+
+def race_check(obs):
+    same, ngot, nwant, closed, dead = obs
+    vs = []
+    if not same:
+        vs.append(("framing:two-connections-at-once:delivered-messages-differ-from-the-streams", f"delivered {ngot} messages, streams hold {nwant} decodable frames (or contents differ)"))
+    if any(closed):
+        vs.append(("framing:two-connections-at-once:connection-closed", f"{closed}"))
+    if dead:
+        vs.append(("framing:two-connections-at-once:reader-died", f"{dead}"))
+    return vs
+
+
+RACES = [(("dwr", "cer"), ("cer", "dwr")), (("dwr", "undec", "dwr"), ("cer",))]
+
+
+# ------------------------------------------------------------------ the node's own socket reads (segment sizes around its read size)
+def work_segments(sizes):
+    """A ready connection of a started node receives one segment of exactly `size` bytes made of watchdog requests (padded with an
+    unknown AVP), then nothing for 2 s, then one more request: every request must be answered, whatever the segment size is
+    relative to the node's recv() size."""
+    from .. import env
+    out = []
+    n = 0
+    for size in sizes:
+        n += 1
+        cfg = {"node": {"ips": ["10.0.0.1"], "tcp_port": 3868, "idle_timeout": 600, "wakeup": 5},
+               "peers": [{"name": "peer1.example.org"}], "apps": [{"id": env.APP_ACCT, "acct": True, "peers": [0]}]}
+        nw = env.NodeWorld(cfg)
+        try:
+            sock, cea = env.handshake_in(nw)
+            if cea is None or cea.result_code != 2001:
+                raise sk.HarnessError("set-up handshake failed")
+            # k requests of equal size + one absorbing the remainder; sizes are multiples of 4, at least 80 bytes each
+            per = 512 if size >= 1024 else max(80, size // 2 // 4 * 4)
+            frames = []
+            left = size
+            i = 0
+            while left > 0:
+                this = per if left - per >= 80 else left
+                pad = this - 68 - 8
+                d = rc.enc_msg(env.CMD_DWR, 0x80, 0, 0x7000 + i, 0x8000 + i,
+                               [rc.octets(264, b"peer1.example.org"), rc.octets(296, b"example.org"), rc.enc_avp(9_000_001, b"p" * pad, 0, 0)])
+                if len(d) != this:
+                    raise sk.HarnessError(f"segment builder: frame of {len(d)} bytes instead of {this}")
+                frames.append(d)
+                left -= this
+                i += 1
+            nw.deliver(sock, b"".join(frames))
+            nw.tick(2)
+            last = env.dwr(hbh=0x7fff, e2e=0x8fff)
+            nw.deliver(sock, last)
+            nw.tick(1)
+            answers = {(f.h.hbh, f.h.e2e) for f in nw.frames(sock) if not f.h.is_request and f.h.code == env.CMD_DWR}
+            want = {(0x7000 + j, 0x8000 + j) for j in range(len(frames))} | {(0x7fff, 0x8fff)}
+            if answers != want or sock.closed:
+                out.append(Violation("framing:node-read:requests-of-one-segment-not-all-answered",
+                                     f"segment of {size} bytes = {len(frames)} requests + 1 later: answered {len(answers & want)} of {len(want)}, closed={sock.closed}",
+                                     {"segment": size}))
+            fails = nw.thread_failures()
+            if fails:
+                out.append(Violation("framing:node-read:thread-died", f"segment of {size} bytes: {fails}", {"segment": size}))
+        finally:
+            nw.close()
+    return n, out
+
+
+SEGMENTS = [160, 1024, 2044, 2048, 2052, 4092, 4096, 4100, 6144, 8192, 16384]
+
+
+def work_long_pause(pauses):
+    """Requests separated by a long silence of the peer (bookkeeping that ages out must not stop the reader)."""
+    from .. import env
+    out = []
+    for pause in pauses:
+        cfg = {"node": {"ips": ["10.0.0.1"], "tcp_port": 3868, "idle_timeout": 100_000, "wakeup": 50},
+               "peers": [{"name": "peer1.example.org"}], "apps": [{"id": env.APP_ACCT, "acct": True, "peers": [0]}]}
+        nw = env.NodeWorld(cfg)
+        try:
+            sock, cea = env.handshake_in(nw)
+            want = set()
+            for i in range(4):
+                nw.deliver(sock, env.dwr(hbh=0x7100 + i, e2e=0x8100 + i))
+                want.add((0x7100 + i, 0x8100 + i))
+                nw.tick(pause if i < 3 else 1)
+            answers = {(f.h.hbh, f.h.e2e) for f in nw.frames(sock) if not f.h.is_request and f.h.code == env.CMD_DWR}
+            if answers != want or sock.closed or nw.thread_failures():
+                out.append(Violation("framing:node-read:requests-after-a-long-silence-not-answered",
+                                     f"4 requests {pause} s apart: answered {len(answers & want)}, closed={sock.closed}, dead threads {nw.thread_failures()}", {"pause": pause}))
+        finally:
+            nw.close()
+    return len(pauses), out
+
+
 def run(tier):
     rep = Report("C05", tier, "fault_enumeration")
     common.pool()
+    from .. import scheddfs
+    tasks = [(functools.partial(race_execute, a, b), race_check, 1) for a, b in RACES]
+    nrace = 0
+    for (a, b), r in zip(RACES, scheddfs.explore_many(tasks, time_cap=300 if tier != "thorough" else 900)):
+        nrace += r["executions"]
+        for (key, detail), choices in r["violations"]:
+            rep.add(Violation(key, f"[streams {a} and {b} on two connections, 1 preemption] choices {choices}: {detail}", {"race": [list(a), list(b)], "choices": choices}))
+        rep.sample({"two_connections": [a, b], "preemption_bound": 1, "executions": r["executions"], "distinct_outcomes": len(r["outcomes"]),
+                    "branching_points": r["max_points"], "capped": r["capped"]})
+    rep.cov["schedules"] = nrace
+    nseg = 0
+    for n, vs in common.pmap(work_segments, [[x] for x in SEGMENTS], chunksize=1):
+        nseg += n
+        rep.extend(vs)
+    for n, vs in common.pmap(work_long_pause, [[p] for p in (7, 61, 1001, 3700, 90_000)], chunksize=1):
+        nseg += n
+        rep.extend(vs)
+    rep.sample({"node_level_segments": SEGMENTS, "pauses_between_requests_s": [7, 61, 1001, 3700, 90_000]})
+    rep.cov["node_read_segments"] = nseg
     sts = streams(tier)
     # longest first for better load balance
     sts.sort(key=lambda s: -sum({"big": 3200, "big8k": 8200}.get(k, 80) for k in s))
@@ -258,6 +411,15 @@ def run(tier):
 
 
 def replay(case):
+    if "pause" in case:
+        return work_long_pause([case["pause"]])[1]
+    if "segment" in case:
+        return work_segments([case["segment"]])[1]
+    if "race" in case:
+        from .. import scheddfs
+        a, b = (tuple(x) for x in case["race"])
+        obs, ch = scheddfs.replay_choices(functools.partial(race_execute, a, b), case["choices"])
+        return [Violation(k, d) for k, d in race_check(obs)]
     kinds = tuple(case["kinds"])
     frames, expected = build_stream(kinds)
     want = case["cuts"]
